@@ -186,6 +186,11 @@ func (c *shardedMapOf[V]) ExpireAll(ctx context.Context) {
 		b.Unlock()
 	}
 
+	if cnt > 0 {
+		// Expirations were set, cleanup of UnlimitedTTL cache can not be skipped anymore.
+		atomic.AddInt64(&c.t.expirationsSet, 1)
+	}
+
 	c.t.NotifyExpiredAll(ctx, start, cnt)
 }
 
@@ -347,6 +352,10 @@ func (c *ShardedMapOf[V]) Restore(r io.Reader) (int, error) {
 			}
 
 			return n, err
+		}
+
+		if e.E != 0 {
+			atomic.AddInt64(&c.t.expirationsSet, 1)
 		}
 
 		h := xxhash.Sum64(e.K)
